@@ -7,7 +7,8 @@
 
      writes    the statement modifies persistent data or persistent catalog objects
      reads     the statement only reads, or only touches state private to the session
-     unjudged  the treatment is mode-dependent in MySQL itself (temporary tables, ANALYZE, CALL,
+     unjudged  the treatment is mode-dependent in MySQL itself (temporary tables, ANALYZE, CALL of a
+               procedure that does not write (a CALL whose body writes is the write kind call_write),
                LOCK TABLES, FLUSH, transaction control, SELECT .. INTO, named locks, KILL,
                SET GLOBAL/PERSIST, PREPARE of a write, EXPLAIN of a write, replication commands):
                executed and recorded, never compared
@@ -28,12 +29,24 @@
    replication, BeginEndBlock, Call, Kill, Signal, LockTables, UnlockTables, CreateUser .. RevokeRole,
    ShowGrants, ShowPrivileges, Flush, Prepare, Execute, Deallocate); statements
    that only exist inside stored programs (DECLARE, cursors, loops, IF/CASE, LEAVE/ITERATE) have no
-   top-level kind (they run inside CALL, which is unjudged).  Not in the table because the engine does not execute
+   top-level kind (they run inside CALL).  Not in the table because the engine does not execute
    them at all (same error with and without a read-only mode): RENAME USER ("not yet implemented"),
    GRANT/REVOKE PROXY, CREATE FUNCTION, top-level BEGIN..END, CREATE SPATIAL REFERENCE SYSTEM.
 
+   Statement SHAPES and TABLE FEATURES.  The planner sends some shapes of a DML statement down
+   special paths (an unfiltered single-table DELETE is rewritten to TRUNCATE when the table has no
+   AUTO_INCREMENT column, no DELETE trigger and is not referenced by a foreign key; LIMIT / ORDER BY,
+   multi-table UPDATE / DELETE, INSERT .. SELECT, REPLACE, LOAD DATA, statements run through
+   PREPARE / EXECUTE and through CALL are planned by their own rule batches), and which path is
+   taken depends on the target table.  The shape kinds (suffix _shape / _unfiltered / _limit)
+   therefore carry a second coordinate `tab`, the feature of the target table (TableFeatures);
+   TabsOf(k) is the set of features the kind is enumerated with ("any" = the kind's statements name
+   their own tables, e.g. call_write: procedures over a plain, an AUTO_INCREMENT and a trigger table).  The rule never looks at `tab`: a write is a write on
+   every table.  TRUNCATE TABLE spelled as such stays DDL (MySQL: implicit commit), while
+   DELETE FROM t is DML whatever the planner turns it into.
+
    State: (mode, db) where db abstracts the digest of all data + catalog (a version counter: a
-   statement that takes effect moves it).  Exec(kind) gives the outcome and the next digest. *)
+   statement that takes effect moves it).  Exec(kind, tab) gives the outcome and the next digest. *)
 EXTENDS Integers, Sequences, FiniteSets, TLC, Json
 
 W(k, sc, fam) == [kind |-> k, class |-> "writes", scope |-> sc, family |-> fam]
@@ -49,8 +62,15 @@ KindTable == {
   W("update", "db", "dml"), W("update_multi", "db", "dml"), W("update_cte", "db", "dml"),
   W("delete", "db", "dml"), W("delete_multi", "db", "dml"), W("delete_cte", "db", "dml"),
   W("load_data", "db", "dml"), W("execute_write", "db", "dml"),
+  \* ---- DML shapes with their own planner paths, one statement per table feature (TabsOf)
+  W("delete_unfiltered", "db", "dml"), W("delete_limit", "db", "dml"),
+  W("update_unfiltered", "db", "dml"), W("update_limit", "db", "dml"),
+  W("insert_shape", "db", "dml"), W("replace_shape", "db", "dml"), W("multi_table_shape", "db", "dml"),
+  W("load_data_shape", "db", "dml"), W("execute_shape", "db", "dml"),
+  \* CALL of a procedure whose body writes: the body's statement is refused as if issued directly
+  W("call_write", "db", "dml"),
   \* ---- DDL on objects of d (TRUNCATE is DDL in MySQL: implicit commit, no row triggers)
-  W("truncate", "db", "ddl"), W("execute_ddl", "db", "ddl"),
+  W("truncate", "db", "ddl"), W("truncate_shape", "db", "ddl"), W("execute_ddl", "db", "ddl"),
   W("create_table", "db", "ddl"), W("create_table_like", "db", "ddl"), W("create_table_select", "db", "ddl"),
   W("drop_table", "db", "ddl"), W("rename_table", "db", "ddl"),
   W("alter_add_column", "db", "ddl"), W("alter_drop_column", "db", "ddl"), W("alter_modify_column", "db", "ddl"),
@@ -94,6 +114,18 @@ ClassOf(k) == Entry(k).class
 ScopeOf(k) == Entry(k).scope
 FamilyOf(k) == Entry(k).family
 
+\* ---- table features (what the planner's special paths test for on the target table)
+\*   plain      primary key, nothing else          keyless    no primary key
+\*   autoinc    AUTO_INCREMENT primary key         trigger    INSERT / UPDATE / DELETE triggers
+\*   fk_parent  referenced by a foreign key        fk_child   holds a foreign key
+TableFeatures == {"plain", "keyless", "autoinc", "trigger", "fk_parent", "fk_child"}
+ShapeKinds == {"delete_unfiltered", "delete_limit", "update_unfiltered", "update_limit", "insert_shape", "replace_shape",
+               "multi_table_shape", "load_data_shape", "execute_shape", "truncate_shape"}
+TabsOf(k) ==
+  CASE k = "truncate_shape" -> TableFeatures \ {"fk_parent"}     \* MySQL refuses TRUNCATE of a referenced table in every mode
+    [] k \in ShapeKinds -> TableFeatures
+    [] OTHER -> {"any"}
+
 Modes == {"none", "engine_ro", "server_locked", "ro_txn", "ro_db", "ro_db_mem"}
 RoDb(m) == m \in {"ro_db", "ro_db_mem"}
 ReadOnlyMode(m) == m # "none"
@@ -129,27 +161,29 @@ Judge(m, k, o) ==
     [] OTHER              -> IF o.out = "ok" /\ ~o.changed /\ o.same THEN "agree" ELSE "violation"
 
 \* ---- the state machine -----------------------------------------------------------------------
-VARIABLES mode, db, act, ret
-vars == <<mode, db, act, ret>>
+VARIABLES mode, db, act, ret, tab
+vars == <<mode, db, act, ret, tab>>
 
 MaxDb == 1
-Init == mode \in Modes /\ db = 0 /\ act = "init" /\ ret = "none"
+Init == mode \in Modes /\ db = 0 /\ act = "init" /\ ret = "none" /\ tab = "any"
 
-Exec(k) ==
+Exec(k, tb) ==
   LET x == Expect(mode, k) IN
   /\ act' = k
+  /\ tab' = tb
   /\ mode' = mode
   /\ (CASE x.out = "rejected" -> ret' = "rejected" /\ db' = db
         [] x.out = "ok" /\ x.changed = "no" -> ret' = "ok" /\ db' = db
         [] x.out = "ok" -> ret' = "ok" /\ db' = db + 1
         [] OTHER -> ret' \in {"ok", "rejected", "error"} /\ db' \in {db, db + 1})
 
-Next == act = "init" /\ \E k \in Kinds : Exec(k)      \* one statement per fresh fixture
+Next == act = "init" /\ \E k \in Kinds : \E tb \in TabsOf(k) : Exec(k, tb)      \* one statement per fresh fixture
 
 Spec == Init /\ [][Next]_vars
 
 \* ---- properties of the rule itself (model-checked) -------------------------------------------
-TableFunctional == \A e1, e2 \in KindTable : e1.kind = e2.kind => e1 = e2
+TableFunctional == /\ \A e1, e2 \in KindTable : e1.kind = e2.kind => e1 = e2
+                   /\ ShapeKinds \subseteq Kinds /\ \A k \in ShapeKinds : ClassOf(k) = "writes" /\ ScopeOf(k) = "db"
 \* "block every write": no write of a forbidden scope ever changes the state
 WritesBlocked == [][(ClassOf(act') = "writes" /\ Forbids(mode, ScopeOf(act'))) => (db' = db /\ ret' = "rejected")]_vars
 \* "and nothing else": reads are never rejected and never change anything; writes outside the
@@ -160,6 +194,6 @@ NothingElse == [][(ClassOf(act') = "reads" => (ret' = "ok" /\ db' = db))
 RoDbWeaker == \A k \in Kinds : \A m \in {"ro_db", "ro_db_mem"} : Expect(m, k).out = "rejected" => Expect("engine_ro", k).out = "rejected"
 
 \* ---- case dump for binding A -----------------------------------------------------------------
-Emit == PrintT("TR " \o ToJson([mode |-> mode, kind |-> act', class |-> ClassOf(act'), scope |-> ScopeOf(act'), family |-> FamilyOf(act'),
+Emit == PrintT("TR " \o ToJson([mode |-> mode, kind |-> act', tab |-> tab', class |-> ClassOf(act'), scope |-> ScopeOf(act'), family |-> FamilyOf(act'),
                                   expect |-> Expect(mode, act')]))
 =============================================================================
